@@ -230,6 +230,9 @@ def run(ctx, res):
     codes = [b'', b'x', b'x=1', b'print("hello world")\n', b'x=1\r\ny=2\r\n',
              b'function _update60()\n x+=1\nend\nfunction _draw()\n cls()\nend\n',
              b'-- ' + b'abc ' * 40 + b'\n' + b'x=x+1 y=y+1 ' * 30]
+    # the compatibility line followed by blank space: an ordinary text (only the line at the very END is PICO-8's own addition)
+    for fc in (compress.PICO8_FUTURE_CODE1, compress.PICO8_FUTURE_CODE2):
+        codes.append(b'function _update60() x=1 end\nx=1 y=2 x=1 y=2 x=1 y=2\n' + fc + rng.choice([b'\n', b' \n', b'\n\n', b' ']))
     for d in (0, 1):
         codes.append(b'--' + incompressible(rng, AREA - 2 + d))        # raw, straddling the area size
     big = gen_code.gen_code(rng, lines=12)
